@@ -27,7 +27,7 @@ type c17Case struct {
 }
 
 func runOutcome(sc *Scenario, debug bool) string {
-	r := RunArtela(sc, ArtelaOpts{Debug: debug})
+	r := RunArtela(sc, ArtelaOpts{Debug: debug, ShareConfig: true})
 	var sb strings.Builder
 	for i := range r.Obs {
 		sb.WriteString(r.Obs[i].Outcome())
